@@ -186,6 +186,11 @@ func GenTag(t *tape.Tape, tag byte, depth int) *Node {
 		if t.Bool(1, 40) {
 			cnt = 1020 + t.Choose(2000) // beyond typical batch/buffer sizes
 		}
+		if t.Bool(1, 10) {
+			// k*2^j (+-1): counts that are special only because of an internal
+			// block or batch size of the codec (C09-35)
+			cnt = (1+t.Choose(8))<<(4+t.Choose(6)) + []int{0, 0, 1, -1}[t.Choose(4)]
+		}
 		n.Ints = make([]int32, cnt)
 		for i := range n.Ints {
 			n.Ints[i] = int32(num(t, 32))
@@ -194,6 +199,11 @@ func GenTag(t *tape.Tape, tag byte, depth int) *Node {
 		cnt := t.Choose(6)
 		if t.Bool(1, 40) {
 			cnt = 510 + t.Choose(1000)
+		}
+		if t.Bool(1, 10) {
+			// k*2^j (+-1): counts that are special only because of an internal
+			// block or batch size of the codec (C09-35)
+			cnt = (1+t.Choose(8))<<(4+t.Choose(6)) + []int{0, 0, 1, -1}[t.Choose(4)]
 		}
 		n.Longs = make([]int64, cnt)
 		for i := range n.Longs {
